@@ -5,7 +5,7 @@ REPO ?= /repo
 B := build
 CXX := g++
 STD := -std=c++17
-COMMON := $(STD) -DNDEBUG -g -O1 -fno-omit-frame-pointer -I$(REPO) -I. -Wall -Wno-unused-function -Wno-deprecated-declarations -Wno-tsan
+COMMON := $(STD) -DNDEBUG -DTLX_VERIF -g -O1 -fno-omit-frame-pointer -I$(REPO) -I. -Wall -Wno-unused-function -Wno-deprecated-declarations -Wno-tsan
 SHIM := -include sim/shim_std.hpp
 FLAGS_plain :=
 FLAGS_asan := -fsanitize=address,undefined -fno-sanitize-recover=undefined
